@@ -1,5 +1,6 @@
 import Ebu.Spec.Bus
 import Ebu.Proofs.BusObs
+import Ebu.Proofs.BusOtel
 /-!
 C20 — Observability callbacks are balanced, nested and truthful
 
@@ -66,5 +67,25 @@ theorem no_observability_no_callbacks {R : Type} (I : RegImpl R) (cfg : Config) 
     (prog : List Action) (hobs : cfg.obs = false) :
     ∀ e ∈ (run I cfg fuel faults prog).c.trace, (match e with | .obs .. => false | _ => true) = true :=
   Ebu.Bus.no_obs_no_events I cfg fuel faults prog hobs
+
+/-- in every run each span that is started is ended exactly once -/
+theorem spans_ended_exactly_once {R : Type} (I : RegImpl R) (cfg : Config) (fuel : Nat) (faults : List Bool)
+    (prog : List Action) (id : Nat) :
+    let tr := (run I cfg fuel faults prog).c.trace
+    (obsCompletes tr).count id = (obsStarts tr).count id ∧ (obsStarts tr).count id ≤ 1 :=
+  Ebu.Bus.spans_ended_exactly_once I cfg fuel faults prog id
+
+/-- with an Observability installed the counters equal the true numbers: handler runs = handler
+invocations, persist attempts = append attempts, persist failures = failed appends, and – when a
+panic handler is installed, which makes panics visible in the trace – handler errors = panics;
+started spans = ended spans -/
+theorem counters_truthful {R : Type} (I : RegImpl R) (cfg : Config) (fuel : Nat) (faults : List Bool)
+    (prog : List Action) (hobs : cfg.obs = true) :
+    let tr := (run I cfg fuel faults prog).c.trace
+    let s := otelSummary tr
+    s.started = s.ended ∧ s.handlerRuns = (trueCounts tr).1 ∧ s.persistAttempts = (trueCounts tr).2.2.1 ∧
+    s.persistErrors = (trueCounts tr).2.2.2 ∧ (cfg.panicH = true → s.handlerErrors = (trueCounts tr).2.1) ∧
+    s.started = s.publishes + s.handlerRuns + s.persistAttempts :=
+  Ebu.Bus.counters_truthful I cfg fuel faults prog hobs
 
 end Ebu.Props.C20
